@@ -101,8 +101,10 @@ _f2py_findall = re.compile(
 # non-capturing group. Since the first group is non-capturing (?:),
 # the matched literal is in group 1.
 # R417 for real-literal-constant does not permit whitespace.
+# A literal may also directly follow the closing '.' of a dotted operator
+# (e.g. "a - .inv.1.0e-3"), i.e. a '.' that is preceded by a letter.
 exponential_constant = re.compile(
-    r"(?:[^\w.]|^)((\d+[.]\d*|\d*[.]\d+|\d+)[edED][+-]?\d+(_\w+)?)"
+    r"(?:[^\w.]|^|(?<=[A-Za-z][.]))((\d+[.]\d*|\d*[.]\d+|\d+)[edED][+-]?\d+(_\w+)?)"
 )
 
 
